@@ -25,9 +25,14 @@ func Sign(ctx context.Context, r io.Reader, cert *certloader.Certificate, params
 	estimatedSize := markers.codeSize * int64(20+params.HashFunc.Size()) / 4096
 	estimatedSize += int64(len(params.Entitlement) + len(params.Requirements))
 	estimatedSize += 16384
-	// readSigBlob refuses a LC_CODE_SIGNATURE region of more than 10e6 bytes: do not write what Verify cannot read
-	if markers.sigLen < estimatedSize && align(estimatedSize, alignSegmentFile) > 10e6 {
-		return nil, nil, fmt.Errorf("image too large: the signature would need %d bytes, the verifier accepts at most 10000000", estimatedSize)
+	// readSigBlob refuses a LC_CODE_SIGNATURE region of more than 10e6 bytes: do not write what Verify cannot read.
+	// PatchSignature reuses the existing region when it is at least as large as the estimate, whatever its size.
+	regionSize := markers.sigLen
+	if regionSize < estimatedSize {
+		regionSize = align(estimatedSize, alignSegmentFile)
+	}
+	if regionSize > 10e6 {
+		return nil, nil, fmt.Errorf("image too large: the signature would need %d bytes, the verifier accepts at most 10000000", regionSize)
 	}
 	// patch header to make space
 	oldHeaderSize := len(headerBuf)
